@@ -23,7 +23,7 @@ def run(ctx):
                 'schedules), half of them steering clear of the known-defect signatures so deep states are checked on an unfixed tree; '
                 '(iii) rejection half: every byte string of length <=2 as a block (thorough: also behind a table-filling block, and 256x256x19 '
                 'three-octet strings), seeded mutations of valid blocks (bit flips, truncation, late/oversized size updates, index 0 / out of '
-                'range, >9 continuation octets, broken Huffman tails, over-long strings). non-trivial = distinct (limit, block bytes) history.')
+                'range, >9 continuation octets, broken Huffman tails, over-long strings); (iv) boundary integers up to 2^64-1 in every integer position (index, name index, size update, string lengths), alone, behind a table-filling block, followed by a field. non-trivial = distinct (limit, block bytes) history.')
     ctx.assumptions = ['HpackStatic.tla is generated from golang.org/x/net (independent of /repo); Huffman.tla as in C15',
                        'a representation cut short by the END of a block is invalid (the fragment API\'s "need more" is only legal before END_HEADERS)',
                        'implementation limit chosen by the spec: a prefix integer with more than nine continuation octets is a decoding error (RFC 7541 5.1)',
@@ -33,9 +33,9 @@ def run(ctx):
     hc.model_check(ctx)
     seed = ctx.seed
     if not thorough:
-        hc.round_(ctx, CMD, KIND, 'ex,lim,sweep,bytes2,rand,mut', 'quick', ['--seed', seed, '--n', 150], sample=True)
+        hc.round_(ctx, CMD, KIND, 'ex,lim,sweep,bytes2,varint,rand,mut', 'quick', ['--seed', seed, '--n', 150], sample=True)
     else:
-        hc.round_(ctx, CMD, KIND, 'ex,lim,sweep,bytes2,bytes2p,rand,mut', 'base', ['--seed', seed, '--n', 2500], sample=True)
+        hc.round_(ctx, CMD, KIND, 'ex,lim,sweep,bytes2,bytes2p,varint,rand,mut', 'base', ['--seed', seed, '--n', 2500], sample=True)
         parts = 4
         for p in range(parts):
             hc.round_(ctx, CMD, KIND, 'exfull', 'exfull[%d/%d]' % (p, parts), ['--part', p, '--parts', parts])
